@@ -62,6 +62,11 @@ def run(chk, replay=None):
         part = "host[%s] x plugin[%s]" % (h, p)
         jobs.append(lambda h=h, p=p, part=part: gluerun.run_bin(chk, [built[h][0], built[p][1], str(chk.seed), str(150 if q else 500)], part, ("C05:",), timeout=1800))
     rtrun.run_many(chk, jobs)
+    # a module that is not Rust at all: an executor speaking the C ABI of the waker types polls a Future object through its vtable entry
+    from props import rtprops
+    rtprops.execute(chk, "fwaker", [dict(instr="release", part="foreign-executor", count=20, args=dict(pid="C05")),
+                                    dict(instr="debug", part="foreign-executor-debug", count=5, args=dict(pid="C05"))])
+    chk.floor("polls driven by a foreign executor", int(chk.parts.get("foreign-executor", {}).get("foreign_executor_rounds", 0)), 10)
     hist = sum(int(v.get("histories", 0)) for k, v in chk.parts.items() if k.startswith("host["))
     chk.coverage["evaluations"] = hist
     chk.coverage["distinct_nontrivial"] = sum(int(v.get("distinct_cases", 0)) for k, v in chk.parts.items() if k.startswith("host["))
@@ -70,7 +75,7 @@ def run(chk, replay=None):
                             "iterator/struct/Option/int-result; plugin-made CVec grown, written and released by the host and host-made CVec consumed by the plugin; host-made store consumed by "
                             "the plugin; every digest compared with the same history on objects made inside the host; both allocators must see no foreign or mis-sized free, the plugin no "
                             "leftover instance; a plugin-made object that is the only holder of its context is consumed by a by-value call: the context must die in the caller's frame, not under "
-                            "the other module's wrapper (backtrace of the payload's Drop). Pairs drawn from {stable 1.95, nightly 1.97, 1.98.1, nightly-2026-08-21} x {debug, release} x randomized repr(Rust) layout, plus pairs built with the library's rust_void feature (erased type is zero-sized). evaluations = histories")
+                            "the other module's wrapper (backtrace of the payload's Drop); a Future object polled through its vtable entry by a hand-written executor that speaks the C ABI of CRefWaker/CRawWaker with its own opaque waker blob (every clone/wake/release must reach the executor's functions). Pairs drawn from {stable 1.95, nightly 1.97, 1.98.1, nightly-2026-08-21} x {debug, release} x randomized repr(Rust) layout, plus pairs built with the library's rust_void feature (erased type is zero-sized). evaluations = histories")
     chk.part("matrix", builds=sorted(built), ordered_pairs=len(pairs))
     chk.floor("module pairs", len(pairs), 2)
     chk.floor("histories", hist, 200)
